@@ -27,6 +27,11 @@ def classify(case, failure):
         masks = {"x": dspec[1], "y": dspec[2]}
         if any(d[0] == "dom" and masks.get(d[1], 1) == 0 for d in decls):
             return "C01/empty-domain/unsound-row"
+    # C01-F19: == / != between two collections compares them as sets
+    if failure.kind in ("unsound-row", "missing-row") and any(
+            s_[0] == "cmp" and s_[1] in ("eq", "ne") and s_[2][0] == "attr" and s_[2][2] in ("tags", "vals")
+            and s_[3][0] == "lit" and isinstance(s_[3][1], tuple) for s_ in subs):
+        return "C01/collections-compared-as-sets"
     if failure.kind == "missing-row" and has_exists_after_nnf(c):
         return "C01/exists-dedup/missing-row"
     return None
